@@ -226,6 +226,9 @@ class MidiTrack(object):
 
     def time_signature_event(self, meter=(4, 4)):
         """Return a time signature event for meter."""
+        if not 0 <= meter[0] <= 255:
+            # the event has one byte for the count
+            raise ValueError("A MIDI time signature counts 0-255 beats, not %r" % (meter[0],))
         numer = a2b_hex("%02x" % meter[0])
         denom = a2b_hex("%02x" % int(log(meter[1], 2)))
         return self.delta_time + META_EVENT + TIME_SIGNATURE + b"\x04" + numer + denom + b"\x18\x08"
